@@ -325,7 +325,7 @@ pub fn check(ctx: &mut Ctx, which: &'static str) {
     }
     ctx.assume("start and end delimiter are non-empty (the property's own precondition)");
     ctx.replay_corpus(|sub, case, obs| replay(which, sub, case, obs));
-    let budget = ctx.tier.pick(1_500_000u64, 30_000_000u64);
+    let budget = ctx.tier.pick(6_000_000u64, 60_000_000u64);
     let units = exhaustive_units(true, budget);
     let desc = format!("all atom strings with atoms^L <= {budget} per delimiter pair, 24 pairs; L per pair: {}", {
         let mut v = vec![];
@@ -363,8 +363,8 @@ pub fn check(ctx: &mut Ctx, which: &'static str) {
     ctx.random(
         "long-strings",
         140,
-        400_000,
-        6_000_000,
+        800_000,
+        8_000_000,
         |t| gen_long(t, true),
         |c, obs| if is07 { oracle_c07(c, obs, false) } else { oracle_c08(c, obs, false) },
     );
